@@ -25,6 +25,9 @@ def _digest_task(args):
 def digests(engine, tier, faults, workers, seeds):
     from simkit import sut, kernel
 
+    if engine == "mpi":
+        os.environ["SIMKIT_FAKE_MPI"] = "1"
+
     sut.load()
     from simkit import meshlib
     from simkit.engines import get
